@@ -357,7 +357,8 @@ def hyperu(a, b, x, out=None, n=0):
 def erf(x, out=None, n=0):
     a = 2 * np_recip_sqrt_pi * np.exp(-np.square(x))
     b = np.zeros_like(x)
-    for k in range(n):
+    # the terms with a negative power of x have a vanishing Pochhammer factor; skip them so that x == 0 is not 0 * inf
+    for k in range(n // 2, n):
         sa = pow(-1, k) * np.exp2(2*k + 1 - n) * pow(x, 2*k + 1 - n)
         sb = scipy.special.poch(2*k + 2 - n, 2*(n - 1 - k))
         sc = math.factorial(n - 1 - k)
@@ -368,7 +369,8 @@ def erf(x, out=None, n=0):
 def erfi(x, out=None, n=0):
     a = 2 * np_recip_sqrt_pi * np.exp(np.square(x))
     b = np.zeros_like(x)
-    for k in range(n):
+    # the terms with a negative power of x have a vanishing Pochhammer factor; skip them so that x == 0 is not 0 * inf
+    for k in range(n // 2, n):
         sa = np.exp2(2*k + 1 - n) * pow(x, 2*k + 1 - n)
         sb = scipy.special.poch(2*k + 2 - n, 2*(n - 1 - k))
         sc = math.factorial(n - 1 - k)
